@@ -289,6 +289,36 @@ def make_cases(run: Run, n_mut: int, n_gen: int, rnd):
     return work
 
 
+TINY_LINES = ["# type: ignore", "# type: ignore[attr-defined]", "# type: ignore[misc, override]  # why", "# mypy: ignore-errors", "# mypy: disallow-untyped-defs", "#!/usr/bin/env python3", "# -*- coding: utf-8 -*-",
+              "", "    ", "\f", "\\", "pass", "...", '"""doc"""', ";", "# type: int", "from __future__ import annotations", "x: int = ''  # type: ignore[assignment]", "def f(): ...  # type: ignore", "if 0:", "@"]
+
+
+def tiny_cases(seed: int, n: int | None):
+    """Degenerate sources: 0-3 lines out of comment-only lines (`# type: ignore` with and without codes, inline configuration,
+    shebang, coding cookie), blank/whitespace/form-feed/backslash lines, one-token statements and fragments; with and without
+    a final newline; as the file given on the command line or as a module it imports. n=None: all of them."""
+    import itertools
+
+    allc = []
+    for k in range(0, 4):
+        for combo in itertools.product(range(len(TINY_LINES)), repeat=k):
+            for nl in (True, False):
+                for imported in (False, True):
+                    allc.append((combo, nl, imported))
+    rnd = random.Random(seed ^ 0x7111)
+    if n is not None and n < len(allc):
+        # all files of up to one line, the rest sampled
+        small = [c for c in allc if len(c[0]) <= 1]
+        rest = [c for c in allc if len(c[0]) > 1]
+        allc = small + rnd.sample(rest, max(0, n - len(small)))
+    out = []
+    for combo, nl, imported in allc:
+        text = "\n".join(TINY_LINES[i] for i in combo) + ("\n" if nl and combo else "")
+        files = {"main.py": "import m\nm\n", "m.py": text} if imported else {"main.py": text}
+        out.append(("tiny:%s:%s%s" % ("imported" if imported else "main", ",".join(map(str, combo)), "" if nl else ":nonl"), files, ["--native-parser"] if rnd.random() < 0.2 else []))
+    return out
+
+
 def report_problem(run: Run, mode, name, files, flags, problem, confirm=True):
     kind, detail = problem
     case = {"mode": mode, "files": files, "flags": flags, "name": name}
@@ -347,7 +377,7 @@ def run(run: Run) -> None:
     q = run.tier == "quick"
     run.rule = (
         "corpus programs (check-*, fine-grained*, semanal-* test data) under 1-2 structure-aware mutations (delete/duplicate/swap/indent statements, rename or cross-wire identifiers, replace a type expression by another from the file, "
-        "truncate, splice, cyclic bases/aliases/decorators, token corruption) + syntax-rich generated programs with corruptions; batch mode in-process with --show-traceback (crashes re-confirmed in a fresh process and minimised), "
+        "truncate, splice, cyclic bases/aliases/decorators, token corruption) + syntax-rich generated programs with corruptions + degenerate sources (0-3 lines of comment-only lines such as `# type: ignore[...]`/inline configuration/shebang/coding cookie, blank, form-feed and backslash lines, one-token fragments; with/without final newline; given directly or imported: all with <=1 line and a sample in quick, all in thorough); batch mode in-process with --show-traceback (crashes re-confirmed in a fresh process and minimised), "
         "daemon mode as successive edits to an in-process dmypy Server each followed by a benign program with a known answer. Non-trivial: the mutated program differs from its seed and still parses (reaches semantic analysis); distinct by source hash."
     )
     run.assumptions = ["a case is a hang only if it exceeds 120 s in-process AND 600 s in a fresh process", "quick tier: VERIF_SEED is folded onto 30 pre-qualified mutant streams (1 + (seed-1) mod 30); thorough tier: open-ended"]
@@ -359,6 +389,13 @@ def run(run: Run) -> None:
     run.extra["stream_seed"] = run.stream_seed
     rnd = random.Random(run.stream_seed)
     work = make_cases(run, 900 if q else 60000, 150 if q else 6000, rnd)
+    # degenerate sources first (cheap): comment-only files, fragments, files without a final newline
+    tiny = tiny_cases(run.stream_seed, 420 if q else None)
+    run.label("tiny_sources", len(tiny))
+    for (name, files, fl), r in zip(tiny, pmap(eval_batch, tiny, recycle=300)):
+        run.count()
+        if r["problem"]:
+            report_problem(run, "batch", name, files, fl, r["problem"])
     k = 0
     for (name, files, fl), r in zip(work, pmap(eval_batch, work, recycle=150)):
         run.count()
@@ -380,6 +417,13 @@ def run(run: Run) -> None:
     rnd.shuffle(sub)
     for i in range(nh):
         chunk = sub[i * per : (i + 1) * per]
+        if chunk:
+            dwork.append(([(n, f) for n, f, _ in chunk], []))
+    # ... and daemon histories whose edits are degenerate sources (a file loses everything below its comment header, ...)
+    tsub = [t for t in tiny if "m.py" not in t[1]]
+    random.Random(run.stream_seed ^ 0x7112).shuffle(tsub)
+    for i in range(2 if q else 40):
+        chunk = tsub[i * per : (i + 1) * per]
         if chunk:
             dwork.append(([(n, f) for n, f, _ in chunk], []))
     for (hist, fl), recs in zip(dwork, pmap(eval_daemon, dwork, recycle=8)):
